@@ -1058,6 +1058,12 @@ MUTANTS = [
     dict(id="C02.i-D14-reintroduced-cancelled-request-always-unregisters", prop="C02", file=CG + "computing.rs",
          old="        if request.in_flight > 0 || request.kept {\n            return;\n        }\n", new="",
          expect="C02.i/register_callee/undo-token-belongs-to-the-registration"),
+    dict(id="C06.j-D15-reintroduced-observation-recorded-for-a-cycle-member", prop="C06", file=CG + "fast_path.rs",
+         old="            && !query_caller.computing().is_in_scc()\n", new="",
+         expect="C06.j/fast_path/no-observation-for-a-caller-on-a-cycle"),
+    dict(id="C06.j-observation-only-for-cycle-members", prop="C06", file=CG + "fast_path.rs",
+         old="            && !query_caller.computing().is_in_scc()\n", new="            && query_caller.computing().is_in_scc()\n",
+         expect="C06.j/fast_path/no-observation-for-a-caller-on-a-cycle"),
     dict(id="C12.k-varint-reader-u128-stops-on-set-bit", prop="C12", file="crates/serialize/src/postcard.rs",
          old="            result |= u128::from(byte & 0x7F) << shift;\n\n            if byte & 0x80 == 0 {",
          new="            result |= u128::from(byte & 0x7F) << shift;\n\n            if byte & 0x80 != 0 {",
